@@ -158,8 +158,8 @@ def w_ctor(acc):
 def w_random(acc, n, seed):
     from hypothesis import strategies as st
 
-    keys = st.lists(st.sampled_from(KEYS + ["title", "Title", "TITLE", "year", "É", "é", ""]), max_size=8)
-    order = st.lists(st.sampled_from(ORDER_KEYS + ["title", "Title", "year", "ab", "Ab", "É", "é"]), max_size=6)
+    keys = st.lists(st.sampled_from(KEYS + ["title", "Title", "TITLE", "year", "É", "é", "", "ß", "SS", "ss", "ſ", "S", "s", "İ", "i̇", "ǅ", "ǆ"]), max_size=8)
+    order = st.lists(st.sampled_from(ORDER_KEYS + ["title", "Title", "year", "ab", "Ab", "É", "é", "ß", "ss", "ſ", "s"]), max_size=6)
     strat = st.fixed_dictionaries({"keys": keys, "mw": st.sampled_from(["alpha", "custom", "custom", "normalize"]), "order": order, "case_sensitive": st.booleans(), "inplace": st.booleans()})
     harness.run_hyp(acc, "fields", o_fields, strat, n, seed)
 
